@@ -163,6 +163,26 @@ pub fn minimise(original: &Scenario, first: &Violation, limit: Duration) -> Mini
         for c in 0..best.clients.len() {
             for i in 0..best.clients[c].len() {
                 for what in 0..8 {
+                    if t0.elapsed() > limit {
+                        break;
+                    }
+                    // applicable at all? (cloning a long scenario is expensive)
+                    {
+                        let Op::Lex(l) = &best.clients[c][i] else { break };
+                        let applicable = match what {
+                            0 => l.crash.is_some(),
+                            1 => !l.shrink_at.is_empty(),
+                            2 => l.placement != Placement::Exact,
+                            3 => l.knobs != Knobs::default(),
+                            4 => l.knobs.token_cap.is_some(),
+                            5 => l.knobs.line_cap.is_some(),
+                            6 => l.knobs.str_lit_cap.is_some(),
+                            _ => l.knobs.mode_stack_cap.is_some(),
+                        };
+                        if !applicable {
+                            continue;
+                        }
+                    }
                     let mut cand = best.clone();
                     let Op::Lex(l) = &mut cand.clients[c][i] else { continue };
                     let changed = match what {
